@@ -1847,9 +1847,12 @@ def run_synthetic(case):
     for n in names:
         env.bind(Arg(n, bool, [n]))
     with Instrument(log):
-        env.bind_function(copy.deepcopy(lf))
-        if case.get("twice"):
+        try:
             env.bind_function(copy.deepcopy(lf))
+            if case.get("twice"):
+                env.bind_function(copy.deepcopy(lf))
+        except Exception as e:  # a library that refuses the definition (e.g. one called like a type)
+            return dict(status="rejected-bind:" + type(e).__name__, records=log.records, recs=log.records)
         src = f"{case['fname']}(" + ", ".join(py_of_json(a) for a in case["actuals"]) + ")"
         expr = ast.parse(src, mode="eval").body
         from qlasskit import ast2logic
